@@ -52,6 +52,9 @@ def m_find(ex, st, recv, args, kw):
     for s2, b in ex.fork(st, Sym(BOOL, has_p(recv.z))):
         yield s2, (Sym(ELEM, first_p(recv.z)) if b else None)
 def absattr_text(ex, st, recv): return Sym(Opt(STR), p_text(recv.z))
+n_children = z3.Function("n_children", ES, z3.IntSort())                         # len(element): number of child elements
+def abslen_elem(ex, st, recv):
+    st.pc.append(n_children(recv.z) >= 0); return Sym(INT, n_children(recv.z))
 
 
 def int_fns(ex):
@@ -71,7 +74,7 @@ def ods_rows_contract():
         ip_, iv_ = int_fns(ex); st.pc.append(z3.And(ip_(z3.StringVal("1")), iv_(z3.StringVal("1")) == 1))      # A-INT on the literal default "1"
         st.ghost["REPdef"] = lambda e: REP(e) == z3.If(has_rep(e), int_fns(ex)[1](rep_text(e)), 1)
         # K-4 region (only when the finding is listed): for plain cells Element.text of the paragraph is the cell text
-        st.ghost["PLAINdef"] = lambda e: z3.Implies(plain(e), z3.If(has_p(e), p_text(first_p(e)) == OS_.some(cell_text(e)), cell_text(e) == z3.StringVal("")))
+        st.ghost["PLAINdef"] = lambda e: z3.Implies(plain(e), z3.If(has_p(e), z3.Or(p_text(first_p(e)) == OS_.some(cell_text(e)), z3.And(OS_.is_none(p_text(first_p(e))), n_children(first_p(e)) == 0, cell_text(e) == z3.StringVal(""))), cell_text(e) == z3.StringVal("")))      # an empty paragraph (no text, no children) is an empty cell
         def on_yield(s, v):
             env = s.frames[-1].env; y = lift(env["_i1"]).z; table = child(G(s, "root"), 0, G(s, "sheet0") - 1); rowe = child(table, 1, y)
             n = nchild(rowe, 2); i = z3.Int("i!oy"); c = z3.Int("c!oy")
@@ -131,7 +134,7 @@ def unit_ods_rows():
         def before_raise_lt1(ex_, s): s.ghost["bad_repeat"] = True
         cal = {"rowio._findall": ModelContract(m_findall), "builtin:zipfile.ZipFile": m_zipfile, "builtin:closing": m_closing, "ref:Zip.read": m_zip_read, "ref:Zip.close": m_zip_close,
                "builtin:io.BytesIO": m_bytesio, "builtin:ElementTree.parse": m_parse, "ref:Tree.getroot": m_getroot, "absattr:Elem.attrib": absattr_attrib, "ref:Attrib.get": m_attrib_get,
-               "abs:Elem.find": AbsContract(m_find), "absattr:Elem.text": absattr_text, "builtin:int": m_int}
+               "abs:Elem.find": AbsContract(m_find), "absattr:Elem.text": absattr_text, "abslen:Elem": abslen_elem, "builtin:int": m_int}
         A = ["A-XML: ElementTree findall/find/attrib/text are abstract observers of an arbitrary tree; zipfile.ZipFile / read / ElementTree.parse raise (any exception) for non-zip files, missing members, malformed XML",
              "A-INT: int(text) is an abstract partial function raising only ValueError"]
         if c._known: A.append("known finding K-4: the cell-text clause is claimed only for plain cells (one paragraph of character data, no spans / text:s / text:tab / text:line-break / further paragraphs) and rows without number-rows-repeated")
@@ -148,7 +151,7 @@ def xml_escape(s): return s.replace("&", "&amp;").replace("<", "&lt;").replace("
 
 def encode_cell_text(t, feat):
     """text of one cell as ODF paragraphs; feat: set of optional encoding features"""
-    if t == "": return ""
+    if t == "": return "<text:p/>" if "empty_p" in feat else ""        # an empty cell may carry an empty paragraph
     paras = t.split("\n") if "paragraphs" in feat else [t]
     out = []
     for p in paras:
@@ -178,6 +181,7 @@ def encode_ods(sheets, feat):
             row = rows[y]; reps = 1
             if "row_runs" in feat:
                 while y + reps < len(rows) and rows[y + reps] == row: reps += 1
+            if "header_group" in feat and y == 0: parts.append("<table:table-header-rows>")          # the first row inside a header row group (ODF 9.1.6)
             parts.append('<table:table-row%s>' % (' table:number-rows-repeated="%d"' % reps if reps > 1 else ""))
             x = 0
             while x < len(row):
@@ -188,7 +192,9 @@ def encode_ods(sheets, feat):
                 inner = encode_cell_text(c, feat)
                 parts.append('<table:table-cell%s%s>%s</table:table-cell>' % (attr, ' office:value-type="string"' if c else "", inner) if inner else '<table:table-cell%s/>' % attr)
                 x += n
-            parts.append("</table:table-row>"); y += reps
+            parts.append("</table:table-row>")
+            if "header_group" in feat and y == 0: parts.append("</table:table-header-rows>")
+            y += reps
         parts.append("</table:table>")
     if "dde_link" in feat:
         # the cached table of a DDE link is a table:table below office:spreadsheet that is *not* a sheet (ODF 1.2, 9.8 table:dde-links)
@@ -208,8 +214,8 @@ def write_ods(path, content_xml, with_content=True, encoding=None):
         if with_content: z.writestr("content.xml", data)
 
 
-PLAIN_FEATURES = ["col_runs", "dde_link"]
-RICH_FEATURES = ["row_runs", "text_s", "text_tab", "line_break", "spans", "paragraphs"]
+PLAIN_FEATURES = ["col_runs", "dde_link", "empty_p"]
+RICH_FEATURES = ["row_runs", "text_s", "text_tab", "line_break", "spans", "paragraphs", "header_group"]
 
 
 def unit_ods_audit():
@@ -244,7 +250,7 @@ def unit_ods_audit():
                 return None if got == sheets[k - 1] else {"expected": sheets[k - 1], "observed": got}
             desc = lambda c: {"sheets": c[0], "encoding_features": sorted(c[1]), "requested_sheet": c[2]}
             res.append(sweep("C15/audit/plain cells, column runs, 1-3 sheets", cases(PLAIN_FEATURES, True), check, "audit",
-                             "tables of 0-6 rows x 0-8 cells over a text alphabet with XML-special and non-ASCII characters, adjacent equal cells, written by an independent ODF encoder with column runs on/off, with / without the cached table of a DDE link (a table:table that is no sheet), 1-3 sheets, every sheet requested",
+                             "tables of 0-6 rows x 0-8 cells over a text alphabet with XML-special and non-ASCII characters, adjacent equal cells, written by an independent ODF encoder with column runs on/off, with / without the cached table of a DDE link (a table:table that is no sheet), empty cells with / without an empty paragraph, 1-3 sheets, every sheet requested",
                              describe=desc, function="rowio.ods_rows", unit="C15.audit", props=["C15"]))
             # "in any encoding the format allows": the same documents with content.xml stored as ISO-8859-1 / UTF-16 (declared in the XML declaration)
             def enc_cases():
